@@ -55,6 +55,9 @@ pub fn catalog() -> Vec<J> {
         // names that merely start with / contain / extend the reserved `_sd` and `...` (not reserved themselves)
         json!({"_sdk_version": "1.2", "device": {"model": "m", "_sd_card_serial": "s", "_sd1": 1, "x_sd": [{"_sdx": true, "_SD": null}]}, "apps": [{"_sd_": 1, "name": "a"}, [{"__sd": 2}]]}),
         json!({"....": 1, "...x": {"..": [{"... ": 2, "x...": 3}]}, "_sd.": "v", "_sd ": [{" _sd": 1}], "\u{2026}": {"_sd...": [], "..._sd": {}}}),
+        // strings and member names made of JSON punctuation (`,` `:` `:[` `":` `", "` `\"`), as members and elements
+        json!({"motto": "veni,vidi", "q": "a\":b", "r": "x:[y", "s": ",", "t": "\",\"", "u": "\": ", "v": ":[", "w": "\":", "lead": ",x", "trail": "x,", "arr": ["a,b", ":[", "\":", "x\", \"y", ",", "\\\",", "{\"a\":[1,2]}"], "o": {"in": {"deep": ["1,2", {"k": "a,b:[c\":d"}]}}}),
+        json!({"k,1": "v", "k\":x": {"in:[ner": [",", "a, b"], ", ": 1, "\": ": {"\",\"": "x,y"}}, "lst": [{"a,b": ":["}, [{"\":": ","}]]}),
         // members NAMED like registered JWT claims, nested and inside array elements
         json!({"licence": {"iss": "dmv", "sub": "s", "aud": "a", "exp": 1, "nbf": 2, "iat": 3, "jti": "j", "cnf": {"k": 1}, "typ": "t", "alg": "none"}, "devices": [{"cnf": {"jwk": "x"}, "iss": "dev", "nbf": 9}]}),
         // length: more than 16 elements in one array
